@@ -31,6 +31,14 @@ CHECKS = {
             "fixed-offset parsers were written against (k != k', l != l' != k, lambda != k, 1- and 2-byte addresses).",
             "One process plays client and server (no shared objects, only bytes + JSON); classes located by name.",
             "DESIGN.md §3 C03"),
+    "C04": ("exploration", "substring scan of serialized index and tokens + pairwise distinctness / cross-setup disjointness of single-ciphertext units",
+            "Databases with 8..16-byte random keywords and 8/16-byte random identifiers (classes that repeat one "
+            "identifier under every keyword and many singletons) are indexed twice under one key; EDB.serialize() and "
+            "every Token.serialize() are scanned for every stored keyword and (except SSE-2) identifier; all "
+            "ciphertext-bearing entries, split into single-ciphertext units where schemes concatenate them, must be "
+            "pairwise distinct inside one index and disjoint between the two indexes.",
+            "Syntactic oracle only; chance-substring probability < 1e-11 per case; DP17 hash-table values and SSE-2 are exempt from the equality checks.",
+            "DESIGN.md §3 C04"),
     "C05": ("exploration", "group invariant: shape(EDB) equal within families of databases built to collide on the public size parameter + uniform entry lengths",
             "Per configuration a family of valid databases is generated to collide on pi_S with maximally different "
             "length profiles (1xN, Nx1, partitions, every N in (2^(t-1), 2^t], equal block counts with different fill); "
@@ -39,6 +47,16 @@ CHECKS = {
             "and flat array must use one key length and one value length.",
             "pi_S computed by the harness model from the plaintext; shape abstraction as defined in props/c05.py.",
             "DESIGN.md §3 C05"),
+    "C06": ("exploration", "sortedness predicate on serialized tables + real-label sequences under permuted input (recording dict wrappers) + slot maps of two setups (recording list wrappers) + DP17 in-bucket order statistic",
+            "Sorted part: each case is set up under one key in the original and three permuted keyword orders; every "
+            "table read back from EDB.serialize() must have ascending keys and the sequences of real labels (those a "
+            "recording dict sees while all stored keywords are searched) must coincide. Placement part: databases with "
+            ">= 12 array-resident blocks are set up twice on ONE scheme object (same key for PiPtr/Pi2Lev, fresh key "
+            "for SSE-1/DP17); per-keyword slot maps recorded by list wrappers (DP17: level, bucket and in-bucket "
+            "offsets by trial decryption) must differ; a whole-run statistic rejects in-bucket positions that follow "
+            "the processing order.",
+            "False-alarm probability < 1e-8 per comparison by workload construction; recording wrappers are harness-side subclasses of dict/list.",
+            "DESIGN.md §3 C06"),
     "C07": ("exploration", "before/after snapshot monitors + history checker against single-search baselines on a private deserialized index",
             "Deep copies of database, configuration dict (including the module-level DEFAULT_CONFIG passed by "
             "reference) and key bytes are compared after construction and EDBSetup; EDB bytes before/after a seeded "
